@@ -30,7 +30,7 @@ class ScriptSock:
         if not self.data:
             self.eof_calls += 1
             if self.rst:
-                raise ConnectionResetError('scripted RST')
+                raise (self.rst if isinstance(self.rst, BaseException) else ConnectionResetError('scripted RST'))
             if self.eof_calls > 2000:
                 raise Spin()
             return b''
@@ -381,14 +381,53 @@ def main(ctx: Ctx):
                 if diffs <= 5:
                     ctx.broke('correspondence', 'Framing.recvN vs recv_msg',
                               f'case {kind} stream={data.hex()[:200]} cuts={cuts[:20]} k={k}\n model={repr(mo)[:300]}\n impl ={repr(impl)[:300]}')
-    # RST instead of FIN at the end of a truncated stream
+    # the stream does not end with FIN but with an error of the connection (the peer's machine crashed, the network
+    # dropped, keep-alive gave up, ...): whatever the error, the receiver / sender must report a closed connection
+    import errno
     r = RecSock()
     remote.send_msg(r, 'abc')
-    for o in range(len(r.buf)):
-        impl, _ = run_impl(remote, r.buf[:o], [], 1, rst=True)
-        ctx.case(('rst', o))
-        if impl != [('closed',)]:
-            ctx.fail('rst:' + (impl[-1][0] if impl else 'none'), 'ConnectionResetError during recv not mapped to ConnectionClosedError', {'offset': o, 'impl': repr(impl)})
+    remote.send_msg(r, [1, 2])
+    endings = [ConnectionResetError(errno.ECONNRESET, 'reset'), TimeoutError(errno.ETIMEDOUT, 'Connection timed out'), BrokenPipeError(errno.EPIPE, 'pipe'),
+               ConnectionAbortedError(errno.ECONNABORTED, 'aborted'), OSError(errno.EHOSTUNREACH, 'No route to host'), OSError(errno.ENETDOWN, 'Network is down'),
+               OSError(errno.EBADF, 'Bad file descriptor')]
+    first = len(r.buf) - len(RecSock().buf)
+    for exc in endings:
+        name = errno.errorcode.get(exc.errno, str(exc.errno))
+        for o in range(len(r.buf) + 1):
+            for cuts in ([], [0] * 8):
+                s_ = ScriptSock(r.buf[:o], cuts, exc)
+                impl = []
+                for _ in range(3):
+                    try:
+                        impl.append(('msg', remote.recv_msg(s_)))
+                    except remote.ConnectionClosedError:
+                        impl.append(('closed',))
+                        break
+                    except BaseException as e:  # noqa
+                        impl.append(('error', type(e).__name__))
+                        break
+                ctx.case(('conn-error', name, o, bool(cuts)))
+                ctx.count('conn-error')
+                if not impl or impl[-1] != ('closed',) or any(x[0] == 'error' for x in impl):
+                    ctx.fail(f'conn-error:{name}:' + (impl[-1][0] if impl else 'none'), f'stream of two messages cut at byte {o} and ended by {name}: recv_msg gave {repr(impl)[:160]} instead of the complete messages and then ConnectionClosedError',
+                             {'kind': 'conn-error', 'errno': exc.errno, 'exc': type(exc).__name__, 'offset': o, 'cuts': cuts})
+        # the sending side
+        class Failing(ShortSock):
+            def _accept(self, data):
+                if self.calls >= 1:
+                    raise exc
+                return super()._accept(data)
+        f = Failing([2])
+        try:
+            remote.send_msg(f, 'abcdef')
+            got = 'returned'
+        except remote.ConnectionClosedError:
+            got = 'closed'
+        except BaseException as e:  # noqa
+            got = type(e).__name__
+        ctx.case(('conn-error-send', name))
+        if got != 'closed':
+            ctx.fail(f'conn-error-send:{name}', f'send_msg on a connection that fails with {name} after a short write: {got} instead of ConnectionClosedError', {'kind': 'conn-error-send', 'errno': exc.errno, 'exc': type(exc).__name__})
     probe_socketpair(ctx, remote)
     probe_short_write_socket(ctx, remote)
     ctx.cov['exhaustive'] = False
@@ -405,6 +444,32 @@ def replay(case):
         print('wire   :', s.wire.hex()[:400], f'({len(s.wire)} bytes)')
         print('frames :', expect.hex()[:400], f'({len(expect)} bytes)')
         print('receiver reads:', run_impl(remote, s.wire, [], len(msgs) + 1)[0])
+        return
+    if case.get('kind') in ('conn-error', 'conn-error-send'):
+        import builtins
+        exc = getattr(builtins, case['exc'])(case['errno'], 'scripted')
+        if case['kind'] == 'conn-error':
+            r = RecSock()
+            remote.send_msg(r, 'abc')
+            remote.send_msg(r, [1, 2])
+            s_ = ScriptSock(r.buf[:case['offset']], case.get('cuts', []), exc)
+            for _ in range(3):
+                try:
+                    print('recv_msg ->', remote.recv_msg(s_))
+                except BaseException as e:  # noqa
+                    print('recv_msg raised', type(e).__name__, e)
+                    break
+        else:
+            class Failing(ShortSock):
+                def _accept(self, data):
+                    if self.calls >= 1:
+                        raise exc
+                    return super()._accept(data)
+            try:
+                remote.send_msg(Failing([2]), 'abcdef')
+                print('send_msg returned')
+            except BaseException as e:  # noqa
+                print('send_msg raised', type(e).__name__, e)
         return
     if case.get('probe'):
         class C:   # minimal context for a probe
